@@ -216,7 +216,7 @@ fn oracle_inner(c: &Case) -> Result<Outcome, Failure> {
 }
 
 fn track(i: u32, ts: u32) -> MTrack {
-    MTrack { kind: kind_for(i), timescale: ts, language: "und".into(), preset: false }
+    MTrack { kind: kind_for(i), timescale: ts, language: "und".into(), preset: false, ttype: 0 }
 }
 
 /// family (a): chunk k's offset = 2^32 + d
